@@ -49,6 +49,24 @@ Theorem C15_restart_same_definition : forall s numid ilvl, InvN s -> find_inst n
 Proof. exact restart_same_definition. Qed.
 Print Assumptions C15_restart_same_definition.
 
+(* reopened documents: save, open (or rendering as a document template), then the first list call.  The numbering
+   manager of the new document takes the existing part over: the invariant holds, every definition handed out before
+   means what it meant, and the first item afterwards gets an id that is not in use, with the definition requested *)
+Theorem C15_reopen_inv : forall s, InvN s -> InvN (reopen s).
+Proof. exact reopen_inv. Qed.
+Print Assumptions C15_reopen_inv.
+
+Theorem C15_reopen_keeps : forall s n ilvl, level_def (reopen s) n ilvl = level_def s n ilvl.
+Proof. exact reopen_keeps. Qed.
+Print Assumptions C15_reopen_keeps.
+
+Theorem C15_reopen_then_item : forall s c, InvN s ->
+  let '(s', (numid, ilvl)) := add_item (reopen s) c in
+  find_inst numid (instances s) = None
+  /\ level_def s' numid ilvl = Some (fmt_of (l_type c), text_of (l_type c) (l_sym c) ilvl, l_start c).
+Proof. exact reopen_then_item. Qed.
+Print Assumptions C15_reopen_then_item.
+
 (* (b) notes: every added note is there exactly once under a fresh id; removal removes exactly
    that note, and fails without changing anything when the id is not a live note *)
 Theorem C15_add_note_spec : forall s t, InvNotes s ->
@@ -64,6 +82,12 @@ Theorem C15_remove_note_spec : forall s id, InvNotes s ->
   /\ (ok = false -> ~ In id (map fst (live s)) /\ s' = s).
 Proof. exact remove_note_spec. Qed.
 Print Assumptions C15_remove_note_spec.
+
+(* notes through save and open: the same notes, and the next note gets an id that is not in use *)
+Theorem C15_reopen_notes_spec : forall s, InvNotes s ->
+  InvNotes (reopen_notes s) /\ live (reopen_notes s) = live s /\ ~ In (next_id (reopen_notes s)) (map fst (live s)).
+Proof. exact reopen_notes_spec. Qed.
+Print Assumptions C15_reopen_notes_spec.
 
 (* (c) a table of contents lists exactly the headings up to the requested level, in body order *)
 Theorem C15_collect_spec : forall maxl body t l,
